@@ -52,7 +52,7 @@ GUIDANCE5 = """Earlier rounds have used up the attractive, obvious bugs for this
 
 Within a family, avoid the first idea that comes to mind (it has probably been tried): look for a place in the code where the family applies that is at least two call levels away from the obvious one, or that only matters for an unusual but legal input. The change must read like a refactor, clean-up or small optimisation that a reviewer would wave through, must leave the build and the existing suite green, and must need a specific input, configuration, sequence or interleaving to show. The source files most relevant to this property are: {anchors} (the bug itself may live elsewhere, e.g. in a helper those files call)."""
 suffix = sys.argv[1]
-if suffix.startswith("5"):
+if suffix.startswith("5") or suffix.startswith("6"):
     a = T.index("## Additional guidance for this round")
     b = T.index("## Environment facts")
     T = T[:a] + "## Additional guidance for this round\n\n{guidance5}\n\n" + T[b:]
@@ -63,9 +63,11 @@ if suffix.startswith("4"):
 for pid in (sys.argv[2:] or sorted(props)):
     p = props[pid]
     extra = {}
-    if suffix.startswith("5"):
+    if suffix.startswith("5") or suffix.startswith("6"):
         k = int(pid[1:])
         fam = [(k * 7) % 20, (k * 7 + 5) % 20, (k * 7 + 11) % 20, (k * 7 + 16) % 20]
+        if suffix.startswith("6"):   # the families not offered to this property in round 5
+            fam = [(k * 7 + 3) % 20, (k * 7 + 8) % 20, (k * 7 + 13) % 20, (k * 7 + 18) % 20]
         extra["guidance5"] = GUIDANCE5.format(assigned="\n".join("  - " + MENU[f] for f in fam), anchors=', '.join(p['anchors']['files']))
     open('/tmp/mut%s_prompt_%s.txt' % (suffix, pid), 'w').write(T.format(**extra, 
         n=2, wt='/tmp/wt%s/%s' % (suffix, pid), out='/tmp/mut%s' % suffix, pid=pid, title=p['title'], statement=p['statement'],
